@@ -251,3 +251,73 @@ func GasBurner() []byte {
 func ReturnWord(w common.Hash) []byte {
 	return NewAsm().PushBytes(w.Bytes()).Push(0).Op(opMSTORE).Push(32).Push(0).Op(opRETURN).Bytes()
 }
+
+// BonusToken is the runtime code of a small hand-assembled ERC-20 (balanceOf, transfer, totalSupply, name, symbol,
+// decimals, mint(address,uint256), setBonus(uint256)) whose transfer moves amount + bonus from the caller to the
+// recipient. With bonus 0 it is an honest token; once its owner sets a bonus it OVER-delivers on every transfer (and
+// reports balances truthfully), the mirror image of a fee-taking token. Storage follows the Solidity convention
+// (mapping _balances at slot 0, _totalSupply at slot 2; the bonus at slot 7). No events are emitted.
+func BonusToken() []byte {
+	const (
+		SHA3         = 0x20
+		CALLDATALOAD = 0x35
+		SHR          = 0x1c
+		EQ           = 0x14
+		LT           = 0x10
+		SUB          = 0x03
+		CALLER       = 0x33
+		SWAP1        = 0x90
+		DUP2         = 0x81
+		DUP3         = 0x82
+	)
+	a := NewAsm()
+	a.Push(0).Op(CALLDATALOAD).Push(0xe0).Op(SHR)
+	sel := func(s uint32, label string) {
+		a.Op(opDUP1).PushBytes([]byte{byte(s >> 24), byte(s >> 16), byte(s >> 8), byte(s)}).Op(EQ).PushLabel(label).Op(opJUMPI)
+	}
+	sel(0x70a08231, "balanceOf")
+	sel(0xa9059cbb, "transfer")
+	sel(0x18160ddd, "total")
+	sel(0x313ce567, "decimals")
+	sel(0x06fdde03, "name")
+	sel(0x95d89b41, "name")
+	sel(0x40c10f19, "mint")
+	sel(BonusSetSelector, "setbonus")
+	a.Push(0).Op(opDUP1, opREVERT)
+	ret32 := func() { a.Push(0).Op(opMSTORE).Push(32).Push(0).Op(opRETURN) }
+	// slotOf: [.., holder] -> [.., keccak256(holder . 0)]
+	slotOf := func() { a.Push(0).Op(opMSTORE).Push(0).Push(32).Op(opMSTORE).Push(64).Push(0).Op(SHA3) }
+	a.Label("balanceOf").Push(4).Op(CALLDATALOAD)
+	slotOf()
+	a.Op(opSLOAD)
+	ret32()
+	a.Label("total").Push(2).Op(opSLOAD)
+	ret32()
+	a.Label("decimals").Push(18)
+	ret32()
+	str := make([]byte, 32)
+	copy(str, "BNS")
+	a.Label("name").Push(0x20).Push(0).Op(opMSTORE).Push(3).Push(0x20).Op(opMSTORE).PushBytes(str).Push(0x40).Op(opMSTORE).Push(0x60).Push(0).Op(opRETURN)
+	a.Label("mint").Push(36).Op(CALLDATALOAD).Push(4).Op(CALLDATALOAD)
+	slotOf()
+	a.Op(opDUP1, opSLOAD, DUP3, opADD, SWAP1, opSSTORE)
+	a.Push(2).Op(opSLOAD, opADD).Push(2).Op(opSSTORE).Push(1)
+	ret32()
+	a.Label("setbonus").Push(4).Op(CALLDATALOAD).Push(7).Op(opSSTORE, opSTOP)
+	a.Label("transfer").Push(36).Op(CALLDATALOAD).Push(7).Op(opSLOAD, opADD) // delta
+	a.Op(CALLER)
+	slotOf()
+	a.Op(opDUP1, opSLOAD)                              // delta cslot balc
+	a.Op(DUP3, DUP2, LT).PushLabel("fail").Op(opJUMPI) // balc < delta -> fail
+	a.Op(DUP3, SWAP1, SUB, SWAP1, opSSTORE)            // balances[caller] = balc - delta; stack: delta
+	a.Push(4).Op(CALLDATALOAD)
+	slotOf()
+	a.Op(opDUP1, opSLOAD, DUP3, opADD, SWAP1, opSSTORE, opPOP) // balances[to] += delta
+	a.Push(1)
+	ret32()
+	a.Label("fail").Push(0).Op(opDUP1, opREVERT)
+	return a.Bytes()
+}
+
+// BonusSetSelector is the selector of BonusToken's setBonus(uint256).
+const BonusSetSelector = 0x0b0b0b0b
